@@ -11,6 +11,7 @@ CONSTANTS
   Subs = {s1}
   NVmax = 2
   QCap = 2
+  MaxBatch = 2
   MaxCopies = 2
   Verdicts = {"A", "R", "I", "U"}
   CfgSpace <- CfgBugA
